@@ -82,7 +82,50 @@ FailsLefts(e) ==
                      \/ (Fits(e.schema, e.datums[i], e.target) /\ (e.lefts[i][1] # "ok" \/ e.lefts[i][2] # 3))} IN
        Chk(bad = {}, "Read or Skip did not consume exactly the bytes of the value")
 
+\* ---------------------------- C13 / C19 --------------------------------
+\* a codec built from a caller-supplied schema: Write must produce a valid encoding of the value under that
+\* schema (reference decoder + Rep direction w), Read must invert it; independently of the write, what Read
+\* returns must be the value the bytes denote (Rep direction r: this is where logical types are decided).
+FailsCS(e) ==
+  IF ~e.built THEN Chk("buildpanic" \notin DOMAIN e \/ e.buildpanic = "", "codec construction panicked")      \* the property is conditional on the codec being built
+  ELSE IF e.wpanic # "" THEN <<"Write panicked: " \o e.wpanic>>
+  ELSE LET r == Dec(e.schema, e.bytes, 1) IN
+       IF ~r.ok \/ r.pos # Len(e.bytes) + 1 THEN <<"written bytes are not a valid encoding under the caller's schema (or bytes are left over)">>
+       ELSE Chk(Rep(e.schema, r.d, e.value, FALSE, "w"), "written bytes do not denote the value under the caller's schema (branch, width, unit or content)")
+            \o Chk(e.rout = "ok" /\ e.left = 0, "the codec cannot read back what it wrote")
+            \o Chk(e.rout # "ok" \/ Rep(e.schema, r.d, e.rvalue, FALSE, "r"), "value read is not what the bytes denote under the schema")
+            \o Chk(e.rout # "ok" \/ ~e.exact \/ SameValue(e.value, e.rvalue), "decoding the written bytes does not return the original value")
+            \o Chk(e.sout = "ok" /\ e.sleft = 0, "Skip does not consume exactly what Write produced")
+
+\* a stored integer decoded under a logical type
+FailsCSRead(e) ==
+  LET r == Dec(e.schema, e.bytes, 1) IN
+  IF ~r.ok THEN <<"harness produced bytes the reference decoder rejects">>
+  ELSE Chk(e.rout = "ok" /\ e.left = 0, "valid stored value rejected")
+       \o Chk(e.rout # "ok" \/ Rep(e.schema, r.d, e.rvalue, FALSE, "r"), "decoded time is not the instant the logical type assigns to the stored integer")
+
+\* ------------------------------- C18 -----------------------------------
+\* e.std / e.std_ok: what Go's time.Parse says; used only to cross-check this specification
+FailsTimeParse(e) ==
+  LET p == ParseRFC3339(e.s) IN
+  \* the property's domain is the RFC 3339 grammar intersected with what time.Parse accepts; Go's parser is more
+  \* lenient than the grammar (one-digit hours, offset +24:00), so only strings the grammar accepts are cross-checked
+  IF p.ok /\ (~e.std_ok \/ ~SameCivil(p, e.std)) THEN <<"SPECBUG: TimeParse accepts this string but time.Parse disagrees">>
+  ELSE Chk(e.out # "panic", "parser panicked")
+       \o (IF p.ok THEN Chk(e.out = "ok", "valid RFC 3339 timestamp / date rejected")
+                         \o Chk(e.out # "ok" \/ SameCivil(p, e.t), "parsed instant or UTC offset differs from the standard library's")
+            ELSE <<>>)
+\* formatting a time with nanosecond precision and parsing it back is the identity
+FailsTimeRoundTrip(e) ==
+  Chk(e.out = "ok", "formatted time not parsed back")
+  \o Chk(e.out # "ok" \/ (e.back.b = e.t.b /\ e.back.off = e.t.off), "format then parse is not the identity (instant or offset)")
+  \o (LET d == Dec(Prim("string"), e.bytes, 1) IN Chk(d.ok /\ SameCivil(ParseRFC3339(d.d.b), e.t), "written text does not denote the time"))
+
 Fails(e) == CASE e.op = "vec_read" -> FailsVec(e) \o FailsLefts(e)
+              [] e.op = "time_parse" -> FailsTimeParse(e)
+              [] e.op = "time_roundtrip" -> FailsTimeRoundTrip(e)
+              [] e.op = "cs_roundtrip" -> FailsCS(e)
+              [] e.op = "cs_read" -> FailsCSRead(e)
               [] e.op = "roundtrip" /\ e.mode = "C01" -> FailsC01(e)
               [] e.op = "roundtrip" /\ e.mode = "C02" -> FailsC02(e)
               [] OTHER -> <<"unknown event">>
